@@ -1,15 +1,30 @@
 #!/bin/sh
 # runs every mutation control (mutants/Cxx.json) against the quick checks, four properties at a time, and writes controls_summary.txt
+# with arguments (property ids): runs those only and replaces their sections in controls_summary.txt
 cd "$(dirname "$0")/.." || exit 2
 out=controls_summary.txt
 tmpd=$(mktemp -d /tmp/controls_XXXXXX)
-ls mutants/C*.json | sed 's#mutants/##; s#\.json##' | xargs -P 4 -I{} sh -c 'timeout 14400 tools/muttest.py {} 2>&1 | grep -v "^WARN" | cut -c1-220 > '"$tmpd"'/{}.txt'
-: > $out.new
-for f in mutants/C*.json; do
-  p=$(basename $f .json)
-  echo "### $p" >> $out.new
-  cat $tmpd/$p.txt >> $out.new
-done
-mv $out.new $out
+if [ $# -gt 0 ]; then props="$*"; else props=$(ls mutants/C*.json | sed 's#mutants/##; s#\.json##'); fi
+echo $props | tr ' ' '\n' | xargs -P 4 -I{} sh -c 'timeout 14400 tools/muttest.py {} 2>&1 | grep -v "^WARN" | cut -c1-220 > '"$tmpd"'/{}.txt'
+python3 - "$tmpd" $props <<'PY'
+import sys, os, re
+tmpd, props = sys.argv[1], sys.argv[2:]
+out = "controls_summary.txt"
+sec = {}
+if os.path.exists(out):
+    cur = None
+    for ln in open(out):
+        m = re.match(r"### (C\d\d)", ln)
+        if m:
+            cur = m.group(1); sec[cur] = []
+        elif cur:
+            sec[cur].append(ln)
+for p in props:
+    sec[p] = open(os.path.join(tmpd, p + ".txt")).readlines()
+with open(out + ".new", "w") as f:
+    for p in sorted(sec):
+        f.write("### %s\n" % p); f.writelines(sec[p])
+os.replace(out + ".new", out)
+PY
 rm -rf $tmpd
 echo done
